@@ -20,6 +20,8 @@ pub fn new_env() -> Env {
         capture_snapshot_at_drop: false,
     });
     env.budget().reset_unlimited();
+    // no debug-mode diagnostics: every host error would otherwise externalise all events and capture a backtrace
+    let _ = env.host().set_diagnostic_level(Default::default());
     env
 }
 
